@@ -817,16 +817,23 @@ func constantInt(c *types.Const) (int64, bool) {
 // ---------------------------------------------------------------------------------------------- R7
 
 var c05VarIndexAllowed = map[string]string{
-	"(*flows/runs.run).PathLocation/index#1": "r.Path()[len(r.Path())-1] after the `== nil` test: a run's path is nil until its first step (NewRun does not set it) and grows by append in CreateStep only (the companion obligation run.path/nil-or-non-empty checks exactly that); ReadRun's make(len(path)) is empty only for a run that never visited a node, and PathLocation is asked only for the session's waiting or current run",
+	"(*flows/routers.RandomRouter).Route/index#1":  "categories[floor(r*n)]: r is random.Decimal() in [0,1) so the index is below n, and n >= 1 because a router's categories are validated `required,min=1` when the definition is read (value-level facts, confirmed by reading)",
+	"(*flows.TemplateTranslation).Preview/index#3": "vars[variables[key]]: vars is built by Template.Templating with one entry per variable of this translation, and a component's variable map holds indexes into that same list — a cross-reference inside the template asset, which the asset source guarantees (assumption: template assets are internally consistent; not derivable from flow definitions or inputs)",
+	"(*flows/runs.run).PathLocation/index#1":       "r.Path()[len(r.Path())-1] after the `== nil` test: a run's path is nil until its first step (NewRun does not set it) and grows by append in CreateStep only (the companion obligation run.path/nil-or-non-empty checks exactly that); ReadRun's make(len(path)) is empty only for a run that never visited a node, and PathLocation is asked only for the session's waiting or current run",
 }
 var c05IndexAllowed = map[string]string{}
 
+// c05R7Packages: what an engine call executes besides the engine itself (router tests — flows/routers/cases — are
+// evaluation code and covered by C04/R6 R7 with its arity wrappers).
+var c05R7Packages = map[string]bool{"flows/engine": true, "flows/runs": true, "flows": true, "flows/actions": true, "flows/routers": true, "flows/routers/waits": true, "flows/routers/waits/hints": true,
+	"flows/modifiers": true, "flows/inputs": true, "flows/triggers": true, "flows/resumes": true, "flows/events": true}
+
 func c05R7(p *core.Program, r *core.Report) {
-	r.Rule("R7", "no index panics in the engine loop: every constant or computed index / slice bound in flows/engine and flows/runs is within the length of the value it indexes on every path (same analysis as C04/R6, R7), or listed")
+	r.Rule("R7", "no index panics in what an engine call executes: every constant or computed index / slice bound in flows, flows/engine, flows/runs, flows/actions, flows/routers (+waits, hints), flows/modifiers, flows/inputs, flows/triggers, flows/resumes and flows/events is within the length of the value it indexes on every path (same analysis as C04/R6, R7; lengths also through interface methods — every module implementation must yield the bound — and through the call sites of function literals), or listed")
 	var fns []*ssa.Function
 	for _, fn := range p.ModuleFunctions() {
 		rel := core.RelPkg(core.FuncPkgPath(fn))
-		if (rel == "flows/engine" || rel == "flows/runs") && !p.IsTestFile(fn.Pos()) {
+		if c05R7Packages[rel] && !p.IsTestFile(fn.Pos()) {
 			fns = append(fns, fn)
 		}
 	}
